@@ -58,6 +58,42 @@ def t_call_emit(facts, res, tier):
                     res.fail(key, facts.where(fn, n), "%s expands an inline body outside generate_function_call: the call is not recorded in the call tree" % fn["name"])
             if n.get("k") == "mcall" and n["method"] in ("inline",) and fn["name"] not in ("generate_asm_statement",):
                 pass
+    # any instruction (JMP as well: a tail call) whose operand is the label of a function
+    from scopes import scoped, simple_name, strip
+    for fn in gen_fns(facts):
+        fkeys = set()
+        for n in walk(fn["body"]):
+            if n.get("k") == "mcall" and n["method"] in ("get", "get_mut", "contains_key") and n.get("args") and expr_text(n["recv"]).replace(" ", "").endswith(".functions"):
+                nm = simple_name(n["args"][0])
+                if nm:
+                    fkeys.add(nm)
+        if not any(n.get("k") == "mcall" and n["method"] == "asm" for n in walk(fn["body"])):
+            continue
+        for n, env, doms in scoped(fn):
+            if not (n.get("k") == "mcall" and n["method"] == "asm" and len(n.get("args", [])) > 1):
+                continue
+            lab = None
+            for x in walk(n["args"][1]):
+                if x.get("k") == "call" and expr_text(x["func"]).replace(" ", "").endswith("ExprType::Label") and x.get("args"):
+                    lab = x["args"][0]
+            if lab is None:
+                continue
+            e = strip(lab)
+            is_fn = False
+            nm = simple_name(e)
+            if nm:
+                b = env.get(nm)
+                if nm in fkeys or (b is not None and b.ctor and b.ctor[-1] == "Identifier"):
+                    is_fn = True
+            elif e.get("k") == "macro" and e.get("name") == "format" and e.get("args"):
+                # format!("Call{}", name)
+                is_fn = any(simple_name(a) in fkeys or (env.get(simple_name(a) or "") is not None and env[simple_name(a)].ctor and env[simple_name(a)].ctor[-1] == "Identifier") for a in e["args"][1:])
+            if not is_fn:
+                continue
+            key = "T-CALL-EMIT:function-label:%s" % fn["name"]
+            res.inst(key, True, {"function": fn["name"], "instruction": expr_text(n["args"][0]), "operand": expr_text(lab)[:40]})
+            if fn["name"] != "generate_function_call":
+                res.fail(key, facts.where(fn, n), "%s emits `%s` to the label of a function (`%s`) outside generate_function_call: control enters that function without the call being recorded in the call tree" % (fn["name"], expr_text(n["args"][0]), expr_text(lab)[:40]))
     # raw assembler text containing JSR built by the generator itself
     for fn in gen_fns(facts):
         for n in walk(fn["body"]):
@@ -579,6 +615,28 @@ def t_hash_iter(facts, res, tier):
 @rule("T-ORDER-FRESH", floor=6,
       text="the insertion counters used as sort keys are unique: every `order:` initialiser of a Variable/Function is the current length of the map it is inserted into, and that insertion cannot replace an existing entry (the function rejects or renames an existing key first); otherwise two entries share a key and their relative order falls back to hash order")
 def t_order_fresh(facts, res, tier):
+    counted = set()
+    _order_fresh_inserts(facts, res, counted)
+    # the length of a map is a counter only while the map never shrinks
+    SHRINK = ("remove", "remove_entry", "retain", "clear", "drain", "take", "pop_first", "pop_last", "split_off", "extract_if")
+    for m in sorted(counted):
+        key = "T-ORDER-FRESH:%s:never-shrinks" % m
+        res.inst(key, True, {"map": m})
+        for fn in facts.fns:
+            if fn.get("test"):
+                continue
+            for x in walk(fn["body"]):
+                if x.get("k") == "mcall" and x["method"] in SHRINK:
+                    r = x["recv"]
+                    while r.get("k") in ("ref", "paren") or (r.get("k") == "unary" and r.get("op") in ("*", "&")):
+                        r = r["e"]
+                    if r.get("k") == "field" and r["name"] == m:
+                        res.fail(key, facts.where(fn, x), "%s shrinks `%s` (%s): its length is the insertion counter stored as `order`, so the next entries get order values that are already taken and their relative position in the sorted listings is hash order" % (fn["name"], m, x["method"]))
+                if x.get("k") == "assign" and x.get("l", {}).get("k") == "field" and x["l"]["name"] == m:
+                    res.fail(key, facts.where(fn, x), "%s replaces the map `%s`, whose length is the insertion counter stored as `order`" % (fn["name"], m))
+
+
+def _order_fresh_inserts(facts, res, counted):
     for fn in facts.fns:
         for ins in walk(fn["body"]):
             if ins.get("k") != "mcall" or ins["method"] != "insert" or len(ins["args"]) != 2:
@@ -624,6 +682,7 @@ def t_order_fresh(facts, res, tier):
             if not fresh and (fn["name"], keyt) in FRESH_KEY_EXCEPTIONS:
                 res.note("exception %s: %s" % (key, FRESH_KEY_EXCEPTIONS[(fn["name"], keyt)]))
                 fresh = True
+            counted.add(mapt.split(".")[-1])
             if not fresh:
                 res.fail(key, facts.where(fn, ins), "%s inserts into `%s` with order = len() but may replace an existing entry for `%s`: the new entry's order then equals that of the next insertion and the sorted output order depends on hash order" % (fn["name"], mapt, keyt))
 
